@@ -30,11 +30,18 @@ type docGen struct {
 	pathPlugin bool // plugin sources are paths ("./x"), which FullSource leaves as written
 	oneCommand bool // always a single `command` string
 	noSig      bool
+	plain      bool // scalars are strings and small non-negative integers only
 }
 
 func (g *docGen) pick(n int) int { return g.rng.Intn(n) }
 
 func (g *docGen) scalar() any {
+	if g.plain {
+		if g.pick(3) == 0 {
+			return g.pick(50)
+		}
+		return g.str("val")
+	}
 	switch g.pick(8) {
 	case 0:
 		return g.pick(100) - 20
